@@ -346,6 +346,55 @@ theorem cv_upper_is_full_pool_at_test {ε : Type} (pool : List (List ε) → Lis
   rw [hp]
   exact maskVec_eq o.nC _ e
 
+/-- round 7 — cross-validation, lower bound: when the ceiling part of a fold holds test conditions only
+    (what `sets_k_fold` / `sets_random` / `sets_leave_one_out_pattern` hand out: the training RDMs
+    restricted to the test conditions), the `subsample_pattern` step of `cv_noise_ceiling` selects
+    everything, so the lower-bound prediction IS the pool of the training RDMs at the test conditions:
+    every per-RDM normalisation inside `pool` (RMS, z-score, ranks) is computed from the test conditions
+    only.  (`pool`, then select, is a different function: selecting does not commute with the
+    normalisations — the hypothesis on the conditions cannot be dropped.) -/
+theorem cv_lower_pools_train_at_test {ε : Type} (pool : List (List ε) → List ε) (o : Obj)
+    (rows : List (List ε)) (f : CvFold) (e : ℕ → ℕ → ε)
+    (hc : ∀ c ∈ f.ceil.conds, f.test.pidx.contains (o.pdesc c) = true)
+    (hp : pool (partData o.nC rows f.ceil) = (pairs f.ceil.conds.length).map (fun q => e q.1 q.2)) :
+    cvPredTrain pool o rows f = pool (partData o.nC rows f.ceil) := by
+  unfold cvPredTrain subsampleAt
+  rw [hp, maskVec_eq]
+  have hall : (List.range f.ceil.conds.length).filter
+      (fun a => match f.ceil.conds[a]? with
+        | some c => f.test.pidx.contains (o.pdesc c) | none => false)
+      = List.range f.ceil.conds.length := by
+    apply List.filter_eq_self.mpr
+    intro a ha
+    have ha' : a < f.ceil.conds.length := List.mem_range.mp ha
+    rw [List.getElem?_eq_getElem ha']
+    exact hc _ (List.getElem_mem ha')
+  exact congrArg (fun l => List.map (fun q => e q.1 q.2) (pairsOf l)) hall
+
+/-- … and the ceiling part's data are the training RDMs at exactly those conditions: entry `(i, j)` of
+    training RDM `r` for the pairs of the part's conditions -/
+theorem cv_ceil_data_is_train_at_conds {ε : Type} (o : Obj) (p : Part) (d : ℕ → ℕ → ℕ → ε)
+    (rows : List (List ε)) (hr : ∀ r ∈ p.rows, rows[r]? = some ((pairs o.nC).map (fun q => d r q.1 q.2))) :
+    partData o.nC rows p
+      = p.rows.map (fun r => (pairsOf ((List.range o.nC).filter (fun i => p.conds.contains i))).map
+          (fun q => d r q.1 q.2)) := by
+  unfold partData selectRows restrict
+  have key : ∀ l : List ℕ, (∀ r ∈ l, rows[r]? = some ((pairs o.nC).map (fun q => d r q.1 q.2))) →
+      (l.filterMap (fun i => rows[i]?)).map (maskVec o.nC (fun i => p.conds.contains i))
+        = l.map (fun r => (pairsOf ((List.range o.nC).filter (fun i => p.conds.contains i))).map
+            (fun q => d r q.1 q.2)) := by
+    intro l
+    induction l with
+    | nil => intro _; rfl
+    | cons x xs ih =>
+      intro h
+      have hx := h x List.mem_cons_self
+      have hxs := ih (fun r hr' => h r (List.mem_cons_of_mem _ hr'))
+      rw [List.filterMap_cons, hx]
+      simp only [List.map_cons]
+      rw [hxs, maskVec_eq]
+  exact key p.rows hr
+
 /-! ## 5. invariances -/
 
 /-- cosine: multiplying every data RDM by its own positive constant changes neither bound
@@ -1061,5 +1110,15 @@ example : runSessionG (fun c => callEffect c) (fun (c : Call) rows => bootNoiseC
         (fun (c : Call) => (bootNoiseCeilingO c.m exObj [[some 1, none, some 3], [some 2, none, some 4]],
           ([[some 1, none, some 3], [some 2, none, some 4]] : List (List (Option ℝ))))) :=
   session_calls_independent id _ _ _
+
+-- round 7, non-vacuity: a fold of `sets_k_fold`-shape on 4 conditions testing conditions 1..3 (a proper subset) with
+-- the ceiling part holding exactly those; any pool returning a full RDM of the 3 conditions qualifies
+example : (∀ c ∈ ({ rows := [0], conds := [1, 2, 3], pidx := [1, 2, 3] } : Part).conds,
+      ({ rows := [1], conds := [1, 2, 3], pidx := [1, 2, 3] } : Part).pidx.contains
+        (({ nR := 2, nC := 4, rdesc := id, pdesc := id } : Obj).pdesc c) = true) ∧
+    (fun (l : List (List ℚ)) => l.headD []) (partData 4 [[1, 2, 3, 4, 5, 6], [6, 5, 4, 3, 2, 1]]
+        { rows := [0], conds := [1, 2, 3], pidx := [1, 2, 3] })
+      = (pairs 3).map (fun q => ([[0, 4, 5], [4, 0, 6], [5, 6, 0]] : List (List ℚ)).getD q.1 [] |>.getD q.2 0) := by
+  refine ⟨by decide, by decide⟩
 
 end Rsa.Props.C07
